@@ -94,7 +94,7 @@ def run_schedule(exe, argv, devs, env=None, timeout=120, workdir=None, keep_trac
         except OSError:
             pass
     res = {"rc": rc, "timeout": to, "devs": devs, "stalls": list(stalls), "policy": policy, "pts": pts, "summary": summ, "wall": time.time() - t0,
-           "stderr": err[-4000:].decode("latin1")}
+           "stderr": err[-60000:].decode("latin1")}
     line = out.decode("latin1").strip().split("\n")[-1] if out.strip() else ""
     try:
         res["out"] = json.loads(line)
